@@ -660,7 +660,12 @@ class Interp3(Interp2):
             nxt = {'_k': self.wrap_int(kterm + 1), '__loop_entry__': loop_entry}
             self.run_hints(spec, 'body_end', nxt)
             for inv in spec.invariants:
-                self.oblige(self.eval_clause(inv, nxt), 'inv-preserve', ast.unparse(inv), where)
+                self.peel_quant = True
+                try:
+                    g = self.eval_clause(inv, nxt)
+                finally:
+                    self.peel_quant = False
+                self.oblige(g, 'inv-preserve', ast.unparse(inv), where)
             if m0 is not None:
                 m1 = self.int_term(self.eval_clause_value(spec.decreases, nxt))
                 self.oblige(z3.And(m0 >= 0, m1 < m0), 'decreases', ast.unparse(spec.decreases), where)
